@@ -44,6 +44,7 @@ RULE = ("per configuration (FCN|QRES x {plain, inverse-problem Parameter, adapti
         "files <name>_init.pt / <name>_min_loss.pt / <name>_final.pt may appear in the directory. A case is non-trivial when every k of its (N, c) was crashed, resumed from the "
         "file on disk and compared; distinct = (configuration, N, c) resp. (configuration, c, flags, module)")
 RULE += '; a quarter of the weight-save cases train with precision 64-true; configurations with two separate networks (one per condition)'
+RULE += '; weight-file cases with LBFGS(max_iter=4)'
 REQUIRED_REACH = ["TrainerStateCheckpoint.on_train_batch_end", "WeightSaveCallback.on_train_start",
                   "WeightSaveCallback.on_train_batch_start", "WeightSaveCallback.on_train_end", "Solver.training_step",
                   "Solver.configure_optimizers", "AdaptiveWeightsCondition.__init__", "Parameter.__init__"]
@@ -112,7 +113,9 @@ def world_spec(cfg, seed):
                   "sampler": {"n": [1, 3], "static": True}}]
     opt = {"SGDm": {"cls": "SGD", "lr": 0.002, "args": {"momentum": 0.9}},
            "Adam": {"cls": "Adam", "lr": 0.01, "args": {}},
-           "RMSprop": {"cls": "RMSprop", "lr": 0.003, "args": {"momentum": 0.5}}}[cfg["opt"]]
+           "RMSprop": {"cls": "RMSprop", "lr": 0.003, "args": {"momentum": 0.5}},
+           # several closure evaluations (and on_before_optimizer_step calls) per training step
+           "LBFGS": {"cls": "LBFGS", "lr": 0.5, "args": {"max_iter": 4}}}[cfg["opt"]]
     opt = dict(opt)
     if cfg["sched"]:
         opt["sched"] = {k: (dict(v) if isinstance(v, dict) else v) for k, v in SCHED_SPEC[cfg["sched"]].items()}
@@ -167,13 +170,16 @@ def gen_cases(seed, tier):
                         chosen.append({"model": m, "feat": f, "opt": o, "sched": SCHEDS[(i + 2 * h + (i // 4) + seed) % 4]})
                     i += 1
         n_base, ws_n = list(range(3, 11)), [3, 6, 9]
+    # LBFGS (several closure evaluations per step): weight-file cases only
+    for i in range(2 if tier == "quick" else 8):
+        chosen.append({"model": MODELS[(i + seed) % 2], "feat": FEATS[(i + seed // 2) % 5], "opt": "LBFGS", "sched": None, "ws_only": True})
     rng = np.random.default_rng([seed, 19])
     cases = []
     for ci, cfg in enumerate(chosen):
         wseed = int(rng.integers(0, 2**31 - 1))
         freq = SCHED_SPEC[cfg["sched"]]["freq"] if cfg["sched"] else 1
         n_list = sorted(set(n_base) | ({2 * freq + 3} if freq > 1 else set()))   # a decay before and after every crash
-        for N in n_list:
+        for N in ([] if cfg.get("ws_only") else n_list):
             for c in (1, 2, 3):
                 cases.append({"kind": "crash", "cfg": cfg, "N": N, "c": c, "seed": wseed})
         j = 0
